@@ -10,7 +10,7 @@ PROPS["C14"] = {
                    "ell>255 / 65535 / 0 thresholds; all eight suite functions are compared with the reference point (canonical encoding) "
                    "and every returned Edwards point is multiplied by L in reference arithmetic; the steps after expansion are driven "
                    "in-package on hostile uniform bytes (multiples of p up to 2^384) and internal/elligator directly on field elements "
-                   "(0, +-1, sqrt(-1), non-canonical aliases, inputs sent to 4-torsion). Does not prove absence."),
+                   "(0, +-1, sqrt(-1), non-canonical aliases, inputs sent to 4-torsion). Does not prove absence. One further binary (overlay package internal/zzc14link) links nothing but the package under test and runs the fixed SHA-512 suites against RFC 9380 J.5 vectors, so that the package's own import set is observed."),
     "level_note": ("Trusted: math/big, Go stdlib and x/crypto hash primitives, the reference (replays the RFC 9380 JSON vectors incl. "
                    "u, Q0/Q1, DST_prime, msg_prime). k = 128 for the oversize-DST XOF rule, as the package documents. "
                    "Unknown/unlinked crypto.Hash values panic in the standard library and are not generated."),
